@@ -23,6 +23,10 @@ enum Event {
     Go(u8),
     /// a stack of `n` marker middlewares (no redirects)
     Stack(u8),
+    /// a request-issuing middleware whose nested request carries `n` marker middlewares of its own
+    Nested(u8),
+    /// the same, the nested request handed to `client.send(request)` instead of awaiting the builder
+    NestedSend(u8),
     Done(crux_http::Result<crux_http::Response<Vec<u8>>>),
 }
 
@@ -52,6 +56,12 @@ impl crux_core::App for App {
                 }
                 b.send(Event::Done);
             }
+            Event::Nested(n) => {
+                caps.http.post("http://h/0").body_bytes([1u8, 2, 3]).middleware(Issuer { marks: n, via_send: false }).send(Event::Done);
+            }
+            Event::NestedSend(n) => {
+                caps.http.post("http://h/0").body_bytes([1u8, 2, 3]).middleware(Issuer { marks: n, via_send: true }).send(Event::Done);
+            }
             Event::Go(limit) => {
                 caps.http.post("http://h/0").body_bytes([1u8, 2, 3]).middleware(Redirect::new(limit)).send(Event::Done);
             }
@@ -79,6 +89,60 @@ impl crux_http::middleware::Middleware for Mark {
         LOG.lock().unwrap().push(format!("{}>", self.0));
         r
     }
+}
+
+/// a middleware that first makes a request of its own through the client it is handed (the documented token-fetch
+/// pattern); that nested request carries its own per-request middleware
+struct Issuer {
+    marks: u8,
+    via_send: bool,
+}
+
+#[async_trait::async_trait]
+impl crux_http::middleware::Middleware for Issuer {
+    async fn handle(&self, req: crux_http::Request, client: crux_http::client::Client, next: crux_http::middleware::Next<'_>) -> crux_http::Result<crux_http::ResponseAsync> {
+        LOG.lock().unwrap().push("I<".to_string());
+        let mut b = client.get("http://n/token");
+        for i in 0..self.marks {
+            b = b.middleware(Mark(7 + i));
+        }
+        let nested = if self.via_send { client.send(b.build()).await } else { b.await };
+        LOG.lock().unwrap().push(format!("I:{}", nested.map(|r| u16::from(r.status())).unwrap_or(0)));
+        let r = next.run(req, client).await;
+        LOG.lock().unwrap().push("I>".to_string());
+        r
+    }
+}
+
+fn real_nested(n: u8, via_send: bool) -> String {
+    LOG.lock().unwrap().clear();
+    let r = std::panic::catch_unwind(|| {
+        let core: crux_core::Core<App> = crux_core::Core::new();
+        let mut pending = core.process_event(if via_send { Event::NestedSend(n) } else { Event::Nested(n) });
+        let mut shell = 0;
+        while let Some(Effect::Http(mut req)) = pending.pop() {
+            shell += 1;
+            LOG.lock().unwrap().push(format!("shell({})", req.operation.url));
+            let more = core.resolve(&mut req, HttpResult::Ok(HttpResponse::status(if shell == 1 { 204 } else { 200 }).build())).expect("resolves");
+            pending.extend(more);
+            if shell > 5 {
+                break;
+            }
+        }
+        format!("{}->{}", LOG.lock().unwrap().join(","), core.view())
+    });
+    r.unwrap_or_else(|_| "PANIC".to_string())
+}
+
+fn expected_nested(n: u8) -> String {
+    let mut v: Vec<String> = vec!["I<".to_string()];
+    v.extend((0..n).map(|i| format!("{}<", 7 + i)));
+    v.push("shell(http://n/token)".to_string());
+    v.extend((0..n).rev().map(|i| format!("{}>", 7 + i)));
+    v.push("I:204".to_string());
+    v.push("shell(http://h/0)".to_string());
+    v.push("I>".to_string());
+    format!("{}->ok200", v.join(","))
 }
 
 /// per-request middleware wraps in the order it was attached; the shell is reached exactly once
@@ -263,6 +327,10 @@ fn main() {
     }
     for n in 0u8..=2 {
         println!("cmdstack-{n} REAL {} | EXPECT {}", real_cmd_stack(n), expected_stack(n));
+    }
+    for n in 0u8..=2 {
+        println!("nested-{n} REAL {} | EXPECT {}", real_nested(n, false), expected_nested(n));
+        println!("nestedsend-{n} REAL {} | EXPECT {}", real_nested(n, true), expected_nested(n));
     }
     for (name, g) in &graphs {
         for limit in 0u8..=4 {
